@@ -812,9 +812,13 @@ def count_loops_to_while(func):
             inc = ast.AugAssign(target=ast.Name(id=i, ctx=ast.Store()), op=ast.Add(), value=step)
             t = first.test
             flip = {ast.Lt: ast.GtE, ast.GtE: ast.Lt, ast.Gt: ast.LtE, ast.LtE: ast.Gt}
+            int_names = {n.targets[0].id for n in ast.walk(func) if isinstance(n, ast.Assign) and len(n.targets) == 1
+                         and isinstance(n.targets[0], ast.Name) and isinstance(n.value, ast.Constant) and isinstance(n.value.value, int)
+                         and not isinstance(n.value.value, bool)}
             if isinstance(t, ast.Compare) and len(t.ops) == 1 and type(t.ops[0]) in flip and any(
                     (isinstance(x, ast.Call) and isinstance(x.func, ast.Name) and x.func.id == 'len') or
-                    (isinstance(x, ast.Constant) and isinstance(x.value, int)) for x in (t.left, t.comparators[0])):
+                    (isinstance(x, ast.Constant) and isinstance(x.value, int)) or
+                    (isinstance(x, ast.Name) and x.id in int_names) for x in (t.left, t.comparators[0])):
                 # a length or an integer constant on one side: the comparison is over integers, its negation is the opposite order
                 nt = ast.copy_location(ast.Compare(left=t.left, ops=[flip[type(t.ops[0])]()], comparators=t.comparators), t)
             else:
@@ -847,20 +851,29 @@ def unroll_literal_loops(func, limit=4):
                     visit(sub)
             for h in getattr(st, 'handlers', []) or []:
                 visit(h.body)
-            if isinstance(st, ast.For) and isinstance(st.target, ast.Name) and not st.orelse \
-                    and isinstance(st.iter, (ast.Tuple, ast.List)) and 1 <= len(st.iter.elts) <= limit \
-                    and all((isinstance(e, (ast.Name, ast.Attribute, ast.Constant)) and not any(isinstance(x, ast.Call) for x in ast.walk(e)))
-                            or (isinstance(e, ast.Call) and _display(e)) for e in st.iter.elts):
-                x = st.target.id
+            targets = None
+            if isinstance(st, ast.For) and not st.orelse and isinstance(st.iter, (ast.Tuple, ast.List)) and 1 <= len(st.iter.elts) <= limit:
+                if isinstance(st.target, ast.Name) and all(
+                        (isinstance(e, (ast.Name, ast.Attribute, ast.Constant)) and not any(isinstance(x, ast.Call) for x in ast.walk(e)))
+                        or (isinstance(e, ast.Call) and _display(e)) for e in st.iter.elts):
+                    targets = [st.target.id]
+                    rows = [[e] for e in st.iter.elts]
+                elif isinstance(st.target, (ast.Tuple, ast.List)) and all(isinstance(t, ast.Name) for t in st.target.elts) and all(
+                        isinstance(e, (ast.Tuple, ast.List)) and len(e.elts) == len(st.target.elts) and all(_display(c) for c in e.elts)
+                        for e in st.iter.elts):
+                    # for a, b in ((a1, b1), (a2, b2)): a table of constants walked row by row
+                    targets = [t.id for t in st.target.elts]
+                    rows = [list(e.elts) for e in st.iter.elts]
+            if targets is not None:
                 own = list(_own_statements(st.body))
-                if x not in _stored_in(st.body) and not any(isinstance(o, (ast.Break, ast.Continue)) for o in own) \
+                if not (set(targets) & _stored_in(st.body)) and not any(isinstance(o, (ast.Break, ast.Continue)) for o in own) \
                         and not any(isinstance(o, (ast.FunctionDef, ast.Lambda, ast.ClassDef)) for b in st.body for o in ast.walk(b)):
                     later = {n.id for s2 in stmts[j + 1:] for n in ast.walk(s2) if isinstance(n, ast.Name) and isinstance(n.ctx, ast.Load)}
-                    if x not in later:
+                    if not (set(targets) & later):
                         new = []
-                        for e in st.iter.elts:
+                        for row in rows:
                             for b in st.body:
-                                nb = _Subst({x: e}, {}).visit(copy.deepcopy(b))
+                                nb = _Subst(dict(zip(targets, row)), {}).visit(copy.deepcopy(b))
                                 new.append(nb)
                         for nb in new:
                             ast.fix_missing_locations(nb)
